@@ -13,7 +13,9 @@ for d in sorted(glob.glob('/verif/seeded/*'), key=lambda p: (os.path.basename(p)
     if len(what) > 150:
         what = what[:147].rsplit(' ', 1)[0] + ' …'
     db = m.get('detected_by') or {}
-    if db.get('exit') == 1:
+    if str(m.get('status_on_current_tree','')).startswith('invalidated'):
+        res = 'not counted: ' + str(m['status_on_current_tree'])[:110]
+    elif db.get('exit') == 1:
         res = '`' + db.get('obligation', '?') + '`' + (' (replayed on the real code)' if db.get('replayed') else '')
     else:
         res = 'MISSED' + (': ' + m['missed_why'] if m.get('missed_why') else '')
@@ -22,4 +24,5 @@ print('| seed | change | caught by |\n|---|---|---|')
 for r in rows:
     print('| %s | %s | %s |' % r)
 missed = [r[0] for r in rows if r[2].startswith('MISSED')]
-print('\n%d seeds, %d caught, %d missed (%s)' % (len(rows), len(rows) - len(missed), len(missed), ', '.join(missed)))
+invalid = [r[0] for r in rows if r[2].startswith('not counted')]
+print('\n%d seeds, %d not counted (%s), %d caught, %d missed (%s)' % (len(rows), len(invalid), ', '.join(invalid), len(rows) - len(missed) - len(invalid), len(missed), ', '.join(missed)))
